@@ -1,7 +1,7 @@
 (* C14 — property theorems only (statements + [exact]); proofs in Proofs.v / Harness.v. *)
 From Coq Require Import List NArith ZArith Bool Znumtheory Lia.
 From V.Base Require Import Hex BigEndian.
-From V.C14 Require Import Model Bytes Proofs Text Curve Jacobian GenOrder Scalar Assoc Harness.
+From V.C14 Require Import Model Bytes Proofs Text Curve Jacobian GenOrder Scalar Assoc HashCap Harness.
 Import ListNotations.
 Local Open Scope Z_scope.
 
@@ -130,6 +130,14 @@ Print Assumptions C14_id_roundtrip.
    returns a point of the curve, so H(m) is a legitimate G1 element; negation stays on the curve *)
 Theorem C14_hash_on_curve : forall d, hash_to_g1 d <> G1Nil -> sig_is_valid (hash_to_g1 d) = true.
 Proof. exact hash_to_g1_valid. Qed.
+(* termination side: the search is not bounded a priori. More fuel never changes an answer already found,
+   and for the digest of a concrete message 20 tries find nothing while the search succeeds after 21
+   increments: a loop capped at 20 is a different (partial) function. *)
+Theorem C14_hash_more_fuel : forall f g x r, hash_point f x = Some r -> hash_point (f + g) x = Some r.
+Proof. exact hash_point_more_fuel. Qed.
+Theorem C14_hash_cap_20_changes_function :
+  hash_point 20 hard_x = None /\ exists y, hash_point 64 hard_x = Some (hard_x + 21, y).
+Proof. exact cap_20_changes_the_hash. Qed.
 Theorem C14_neg_on_curve : forall x y, on_curve x y = true -> on_curve x (fsub 0 y) = true.
 Proof. exact neg_on_curve. Qed.
 Print Assumptions C14_hash_on_curve.
